@@ -371,6 +371,10 @@ class Check:
                 knobs = {"include_nmne": True, "capture_nmne": True}
             specs.append({"name": f"gen-{sd}", "kind": "env", "src": ["gen", {"seed": sd, "knobs": knobs}], "policy": pols[s % 4], "seed": sd,
                           "episodes": 2, "steps": 40 if q else 96})
+        for s in range(10 if q else 48):  # wireless-router family (router observations of wireless routers, NMNE over the air)
+            sd = seed * 1000 + 300 + s
+            specs.append({"name": f"gen-wlan-{sd}", "kind": "env", "src": ["gen", {"seed": sd, "family": "wlan", "knobs": {"include_nmne": True, "capture_nmne": bool(s % 2)}}],
+                          "policy": pols[s % 4], "seed": sd, "episodes": 2, "steps": 40 if q else 96})
         # file-system histories spanning several steps (delete now, restore / delete again later through terminal commands), access and
         # creation / deletion counters observed, nested and flattened
         for s in range(16 if q else 64):
